@@ -60,3 +60,5 @@ pub struct ExOsStr(std::ffi::OsStr);
 pub struct ExPath(std::path::Path);
 pub assume_specification [<std::ffi::OsString as core::ops::Deref>::deref] (s: &std::ffi::OsString) -> &std::ffi::OsStr;
 pub assume_specification [<std::path::PathBuf as core::ops::Deref>::deref] (s: &std::path::PathBuf) -> &std::path::Path;
+#[verifier::external_type_specification] #[verifier::external_body]
+pub struct ExCancellationToken(tokio_util::sync::CancellationToken);
